@@ -697,10 +697,10 @@ def explore(ctx, exe, pool, repaired, stats, on_result):
     nfull = 100 if quick else 1500
     for scn in fullq:
         submit(scn, [("rand" if i % 2 else "rands", rng.randrange(1, 10 ** 9), 12000, ()) for i in range(nfull)])
-    nstress = 300 if quick else 3000
+    nstress = 200 if quick else 3000
     for scn in stress:
         submit(scn, [("rand" if i % 2 else "rands", rng.randrange(1, 10 ** 9), 12000, ()) for i in range(nstress)])
-    nscn = 200 if quick else 1500
+    nscn = 160 if quick else 1500
     per = 12 if quick else 20
     for _ in range(nscn):
         scn = random_scenario(rng)
@@ -741,7 +741,7 @@ def explore_one(args):
 
 
 def walk_cfgs(quick):
-    n = 10000 if quick else 150000
+    n = 4000 if quick else 150000
     return [("q=1 min=0 max=3 lazy=0 tick=1100 sp=1", "s0:11:5 s1:12:6 j0 j1 | s2:21:5 j2 s2:22:1 | s3:31:1 r3", n),
             ("q=2 min=0 max=4 lazy=1 tick=700 sp=0", "s0:11:5 r0 d0 s0:12:1 | S1:21:6 A1 J1 Q1 | s2:31:1 s3:32:2 j3 j2 | s4:41:0", n),
             ("q=1 min=1 max=3 lazy=0 tick=2100 sp=2", "s0:11:5 s0:12:6 s0:13:7 | s1:21:5 s2:22:6 s1:23:1 | S3:31:1 S3:32:1", n),
@@ -835,7 +835,8 @@ def check(ctx):
     try:
         with cf.ProcessPoolExecutor(C.NCPU) as pool:
             xf = [pool.submit(explore_one, (c, sc, cap, 1, DRV)) for c, sc, cap in explore_cfgs(ctx.tier == "quick")]
-            xf.append(pool.submit(explore_one, ("q=1 min=0 max=3 lazy=0 tick=0 sp=0", "s0:11:5 s1:12:6 j0 j1", 1500000, 0, DRV)))
+            if ctx.tier != "quick":     # sanity witness (the explorer still finds the D17 deadlock in the model of the ORIGINAL code): thorough tier only; the quick tier keeps the random walk of the original model
+                xf.append(pool.submit(explore_one, ("q=1 min=0 max=3 lazy=0 tick=0 sp=0", "s0:11:5 s1:12:6 j0 j1", 1500000, 0, DRV)))
             wf = [pool.submit(walk_one, (c, sc, n, ctx.seed * 7 + k, 1, DRV)) for k, (c, sc, n) in enumerate(walk_cfgs(ctx.tier == "quick"))]
             c0, sc0, n0 = walk_cfgs(True)[0]
             wf.append(pool.submit(walk_one, (c0, sc0, n0, ctx.seed, 0, DRV)))
